@@ -1,5 +1,5 @@
 """Property -> rules wiring.  Each function returns kwargs for Ctx.finish()."""
-from . import control, history, descent, warm, degenerate, feasible, plumb, matrix, storage, formulas, penalgebra, misc, extents, blockpen, cox, reweight, critical
+from . import control, history, descent, warm, degenerate, feasible, plumb, matrix, storage, formulas, penalgebra, misc, extents, blockpen, cox, reweight, critical, kernels
 
 TB = ["CPython ast", "role seeds: positional parameters of BaseSolver._solve and the "
       "fixed slot-method names of the datafit/penalty interface"]
@@ -49,6 +49,8 @@ def c04(A, ctx, tier):
     feasible.r_write(A, ctx, dict(floor=15))
     misc.r_zerocol(A, ctx, dict(floor=10))
     blockpen.r_proxfoc_block(A, ctx, dict(floor=12), rule="R-NONNEG-BLOCK", parts=("nonneg",))
+    blockpen.r_inf_block(A, ctx, dict(floor=10))
+    blockpen.r_gsupp(A, ctx, dict(floor=80))
     ctx.assume("finiteness under overflow/cancellation is not decided")
     return dict(explanation="feasibility at every stopping point: only prox outputs, "
                 "guarded extrapolations, line-search combinations and the intercept are "
@@ -91,6 +93,7 @@ def c19(A, ctx, tier):
     degenerate.r_loop(A, ctx, dict(floor=100))
     misc.r_sibguard(A, ctx, dict(floor=8))
     misc.r_zerocol(A, ctx, dict(floor=10))
+    misc.r_abseps(A, ctx, dict(floor=300))
     ctx.assume("finiteness under overflow and rank-deficient non-zero designs are not decided")
     return dict(explanation="degenerate data: every division by a data-derived "
                 "magnitude in solver code is dominated by a non-zero fact; every loop is "
@@ -144,12 +147,17 @@ def c10(A, ctx, tier):
     storage.r_solverstate(A, ctx, dict(floor=25))
     misc.r_sparsetest(A, ctx, dict(floor=15))
     misc.r_sibguard(A, ctx, dict(floor=8))
-    ctx.assume("equality 'up to solver tolerance' of converged results is numerical and not decided")
-    return dict(explanation="storage independence (structural part): CSC triples are "
+    kernels.r_kernel_eq(A, ctx, dict(floor=40))
+    kernels.r_csc_helpers(A, ctx, dict(floor=16))
+    ctx.assume("equality 'up to solver tolerance' of converged results is numerical and not decided; "
+               "kernel equality is decided on one 3x3 design with structural zeros (symbolic entries), "
+               "one epoch, not for every sparsity pattern")
+    return dict(explanation="storage independence: CSC triples are "
                 "passed in (data, indptr, indices) order at every call site; every sparse/"
                 "dense dispatch calls a sibling pair with corresponding arguments; inputs are "
                 "converted to CSC/Fortran order before any kernel; solver objects carry no "
-                "state between solves", trusted_base=TB)
+                "state between solves; the dense and CSC copies of every solver kernel and the CSC "
+                "helper functions are equal terms on a small symbolic design", trusted_base=TBA)
 
 
 def c13(A, ctx, tier):
@@ -261,6 +269,7 @@ def c09(A, ctx, tier):
                   select=lambda f: "lipschitz" in f.name)
     cox.r_cox(A, ctx, {}, rule_prefix="R-COX", parts=("hess",))
     misc.r_powerstart(A, ctx, {})
+    kernels.r_csc_helpers(A, ctx, dict(floor=16))
     ctx.assume("accuracy of the power method in spectral_norm is numerical and not decided; "
                "spectral norms are opaque atoms keyed by the matrix they are taken of")
     return dict(explanation="coordinate / group / global Lipschitz constants are lifted and "
@@ -288,6 +297,7 @@ def c15(A, ctx, tier):
     extents.r_idx(A, ctx, dict(floor=150, floor_typed=400))
     descent.r_step(A, ctx, dict(floor=12), rule="R-STEP-KIND")
     misc.r_grporder(A, ctx, dict(floor=6))
+    misc.r_abseps(A, ctx, dict(floor=300))
     ctx.assume("equivariance of converged solutions and scaling laws are numerical; decided is "
                "the necessary condition that no subscript mixes a working-set position, a "
                "feature, a group, a task or a sample index, and that group specifications keep "
